@@ -89,13 +89,17 @@ def run(ctx):
         facts = [(src(e), t) for e, t in guard_facts(fa, gate[0][0])]
         targets = [src(t) for t in gst.targets[0].elts] if isinstance(gst, ast.Assign) and isinstance(gst.targets[0], ast.Tuple) else []
         args = [src(a) for a in gate[0][1].args]
-        ctx.ob("R-DOM", "C09.3", f, "when rescaling to the physical space, the generated points and their densities are re-bound to the outputs of check_prior_bounds", ("rescale", True) in facts and targets == args and "x" in targets and "log_prob" in targets, f"`{src(gst)}` under {facts}")
-        # nothing rebinding x between the gate and the returns
-        rets = fa.find(lambda s: isinstance(s, ast.Return) and s.value is not None and isinstance(s.value, ast.Tuple) and src(s.value.elts[0]) == "x")
-        later = [n for n in fa.find(lambda s: isinstance(s, ast.Assign) and any(src(t) == "x" or (isinstance(t, ast.Tuple) and "x" in [src(e) for e in t.elts]) for t in s.targets)) if fa.cfg.can_follow(gate[0][0], n) and n != gate[0][0]]
-        ctx.ob("R-ORDER", "C09.3", f, "the gated arrays are what is returned (no re-binding after the gate)", rets and not later, "")
-        inv = fa.find_calls("self.inverse_rescale")
-        ctx.ob("R-ORDER", "C09.3", f, "the bounds gate is applied to the physical-space points (after inverse_rescale)", len(inv) == 1 and fa.dominates(inv[0][0], gate[0][0]), "")
+        inv = find_stmt("$$x, $$J = self.inverse_rescale($$x)", f.node)
+        dens = find_stmt("$$lp -= $$J", f.node, {"J": inv[0][1]["J"]}) if len(inv) == 1 else []
+        xn = src(inv[0][1]["x"]) if len(inv) == 1 else None
+        lpn = src(dens[0][1]["lp"]) if len(dens) == 1 else None
+        ctx.ob("R-DOM", "C09.3", f, "when rescaling to the physical space, the generated points and their densities are re-bound to the outputs of check_prior_bounds", ("rescale", True) in facts and targets == args and xn is not None and lpn is not None and args and args[0] == xn and lpn in targets, f"`{src(gst)}` under {facts}")
+        # nothing rebinding the points between the gate and the returns
+        rets = fa.find(lambda s: isinstance(s, ast.Return) and s.value is not None and isinstance(s.value, ast.Tuple) and len(s.value.elts) >= 2 and src(s.value.elts[0]) == xn and src(s.value.elts[1]) == lpn)
+        later = [n for n in fa.find(lambda s: isinstance(s, ast.Assign) and any(src(t) == xn or (isinstance(t, ast.Tuple) and xn in [src(e) for e in t.elts]) for t in s.targets)) if fa.cfg.can_follow(gate[0][0], n) and n != gate[0][0]]
+        ctx.ob("R-ORDER", "C09.3", f, "the gated arrays are what is returned (no re-binding after the gate)", bool(rets) and not later, "")
+        invc = fa.find_calls("self.inverse_rescale")
+        ctx.ob("R-ORDER", "C09.3", f, "the bounds gate is applied to the physical-space points (after inverse_rescale)", len(invc) == 1 and fa.dominates(invc[0][0], gate[0][0]), "")
     ctx.floor("C09.3", 7)
 
     # ---- C09.4 INS mask-before-use ---------------------------------------------------------
@@ -111,7 +115,13 @@ def run(ctx):
                 defs = sorted([s for s in walk_no_nested(f.node) if isinstance(s, ast.Assign) and isinstance(s.targets[0], ast.Name) and s.targets[0].id == m.id and s.lineno < c.lineno], key=lambda s: s.lineno)
                 text = src(defs[-1].value) if defs else text
             masks.append((nid, text, [src(a) for a in c.args[1:]]))
-        samp = "x" if name == "draw" else "samples"
+        if name == "draw":
+            cc = find_stmt("$$S = concatenate([$$S, $$x])", f.node)
+            samp = src(cc[0][1]["x"]) if len(cc) == 1 else "x"
+            acc_name = src(cc[0][1]["S"]) if len(cc) == 1 else "samples"
+        else:
+            rr = [n for n in walk_no_nested(f.node) if isinstance(n, ast.Return) and isinstance(n.value, ast.Tuple)]
+            samp = src(rr[0].value.elts[0]) if len(rr) == 1 else "samples"
         cube = [m for m in masks if f"self.model.in_unit_hypercube({samp})" in m[1] and samp in m[2]]
         prior = [m for m in masks if f"np.isfinite({samp}['logP'])" in m[1] and samp in m[2]]
         ctx.ob("R-ORDER", "C09.4", f, "generated points pass a mask containing model.in_unit_hypercube(points)", len(cube) == 1, f"masks {[m[1][:70] for m in masks]}")
@@ -121,15 +131,15 @@ def run(ctx):
             ctx.ob("R-ORDER", "C09.4", f, "order: hypercube mask -> prior evaluated on the surviving points (unit_hypercube=True) -> finite-prior mask -> result", len(ev) == 1 and fa.dominates(cube[0][0], ev[0][0]) and fa.dominates(ev[0][0], prior[0][0]) and any(k.arg == "unit_hypercube" and isinstance(k.value, ast.Constant) and k.value.value is True for k in ev[0][1].keywords), "")
             # results: what is concatenated / returned is bound after the last mask
             if name == "draw":
-                cat = fa.find(lambda s: match_stmt("samples = concatenate([samples, x])", s) is not None)
-                ctx.ob("R-ORDER", "C09.4", f, "only doubly masked points are appended to the returned batch", len(cat) == 1 and fa.dominates(prior[0][0], cat[0]) and not _rebinds(fa, "x", prior[0][0], cat[0]), "")
+                cat = fa.find(lambda s: match_stmt("$$S = concatenate([$$S, $$x])", s) is not None)
+                ctx.ob("R-ORDER", "C09.4", f, "only doubly masked points are appended to the returned batch", len(cat) == 1 and fa.dominates(prior[0][0], cat[0]) and not _rebinds(fa, samp, prior[0][0], cat[0]), "")
             else:
                 rets = fa.find(lambda s: isinstance(s, ast.Return))
-                ctx.ob("R-ORDER", "C09.4", f, "only doubly masked points are returned", len(rets) == 1 and fa.dominates(prior[0][0], rets[0]) and src(fa.stmt(rets[0]).value.elts[0]) == "samples", "")
+                ctx.ob("R-ORDER", "C09.4", f, "only doubly masked points are returned", len(rets) == 1 and fa.dominates(prior[0][0], rets[0]) and src(fa.stmt(rets[0]).value.elts[0]) == samp, "")
     pl = ctx.fn(tables.INS + ".populate_live_points")
     pla = FA(pl)
     acc = find_stmt("$$a = isfinite($$p['logP'])", pl.node)
-    cp = find_stmt("live_points[$s] = $$p[$$a][:$$m]", pl.node)
+    cp = find_stmt("$$lp[$s] = $$p[$$a][:$$m]", pl.node)
     okp = len(acc) == 1 and len(cp) == 1 and src(acc[0][1]["a"]) == src(cp[0][1]["a"]) and src(acc[0][1]["p"]) == src(cp[0][1]["p"])
     ctx.ob("R-ORDER", "C09.4", pl, "initial INS points are copied only through points[isfinite(points['logP'])]", okp, "")
     draws = find_stmt("$$p = self.model.sample_unit_hypercube($n)", pl.node)
